@@ -163,6 +163,7 @@ class FakeClient(object):
 
         if isinstance(payload, C._JoinGroupRequest):
             self.world.join_kwargs = kwargs
+            self.world.join_member = payload.member_id
             return self._mk("join", "join %d" % member_no(payload.member_id))
         if isinstance(payload, C._SyncGroupRequest):
             return self._mk("sync", "sync %s %d %d" % (opt(payload.generation_id), member_no(payload.member_id), len(payload.group_assignment)))
@@ -252,6 +253,7 @@ class GroupWorld(object):
         self.now = Fraction(0)
         self.client = FakeClient(self)
         self.join_kwargs = None
+        self.join_member = ""  # member id quoted by the latest JoinGroup request
         self._orig_consumer = G.Consumer
         G.Consumer = lambda **kw: FakeConsumer(self, **kw)
         try:
